@@ -408,6 +408,23 @@ def oracle_c15(h, r):
         if fx != sum(exp.values()):
             fails.append({'what': 'counting_set for_all summed %d after epoch %d, inserts %d' % (fx, e, sum(exp.values()))})
     fails += [f for f in same_on_all_ranks(Q, h) if 'C.' in f['what']]
+    # long runs of one key inside one epoch
+    cs2 = {}
+    seen = False
+    for l in r['lines']:
+        if l.startswith('W ') and ' CS2 :' in l:
+            seen = True
+            for tok in l.split(':', 1)[1].split():
+                k, v = tok.split('=')
+                cs2[int(k)] = cs2.get(int(k), 0) + int(v)
+    if seen:
+        want = {9000 + rk: 70000 for rk in range(h.n)}
+        want[8888] = 33000 * h.n
+        if cs2 != want:
+            bad = sorted(k for k in set(want) | set(cs2) if want.get(k) != cs2.get(k))[:4]
+            fails.append({'what': 'counting_set after long runs of one key in one epoch: counts %s, inserts %s' % ({k: cs2.get(k) for k in bad}, {k: want.get(k) for k in bad})})
+    elif r.get('verdict') == 'ok':
+        fails.append({'what': 'no long-run counting_set output'})
     return fails, []
 
 def oracle_c16(h, r):
@@ -491,14 +508,14 @@ def oracle_c20(h, r):
     D, T, Q, Z, nested = parse(r['lines'])
     fails = []
     for rk in range(h.n):
-        for a, b in (('M', 'M2'), ('X', 'X2'), ('S', 'S2'), ('T', 'T2'), ('B', 'B2'), ('C', 'C2'), ('SM', 'SM2')):
+        for a, b in (('M', 'M2'), ('X', 'X2'), ('S', 'S2'), ('T', 'T2'), ('B', 'B2'), ('C', 'C2'), ('SM', 'SM2'), ('BD', 'BD2'), ('MD', 'MD2'), ('SS', 'SS2')):
             x, y = Z.get((rk, a)), Z.get((rk, b))
             if x is None or y is None:
                 fails.append({'what': 'no serialization dump for %s on rank %d' % (a, rk)})
                 continue
             # contents are compared as multisets where the container is one (the order of equal keys inside a
             # multimap / of a bag is not part of its contents: cereal reloads equal keys in reverse order)
-            xs, ys = (sorted(x[1]), sorted(y[1])) if a in ('B', 'X', 'T') else (x[1], y[1])
+            xs, ys = (sorted(x[1]), sorted(y[1])) if a in ('B', 'X', 'T', 'BD') else (x[1], y[1])
             if xs != ys:
                 fails.append({'what': 'deserialize(%s) on rank %d gives %s, the serialized container held %s' % (a, rk, ys[:12], xs[:12])})
             elif x[0] != y[0]:
